@@ -147,7 +147,7 @@ impl Layout {
             name: "u".into(),
             params: vec![],
             usefixtures: vec!["fx".into()],
-            indirect: vec![],
+            indirect: vec![], indirect_above: false,
         });
         items.push(Item::Class {
             name: "C".into(),
@@ -158,8 +158,18 @@ impl Layout {
             name: "i".into(),
             params: vec!["fx".into()],
             usefixtures: vec![],
-            indirect: vec!["fx".into()],
+            indirect: vec!["fx".into()], indirect_above: false,
         });
+        // both kinds of mark on one function, in either stacking order
+        for (n, above) in [("ui", false), ("iu", true)] {
+            items.push(Item::Test {
+                name: n.into(),
+                params: vec!["fx".into()],
+                usefixtures: vec!["fx".into()],
+                indirect: vec!["fx".into()],
+                indirect_above: above,
+            });
+        }
         if self.own_defs >= 2 {
             items.push(fx(self.rich, "own2", &[]));
         }
